@@ -338,6 +338,106 @@ def run_select(combos):
     return p
 
 
+def _parse_printed_tree(lines):
+    """the indented descriptor listing printed by `lookup` / `info -t` -> nodes in the shape of mc.ref.template.tree
+    (4 characters of indentation per level; a delayed replication factor is printed as '....' + id on the level of the
+    replication descriptor, directly after it)"""
+    items = []
+    for l in lines:
+        body = l.lstrip(' ')
+        ind = len(l) - len(body)
+        factor = body.startswith('....')
+        if factor:
+            body = body[4:]
+        items.append((ind // 4, factor, int(body[:6]), body[6:]))
+
+    def parse(i, level):
+        out = []
+        while i < len(items) and items[i][0] >= level:
+            lv, factor, d, rest = items[i]
+            if lv > level:
+                raise ValueError('unexpected indentation at %06d' % d)
+            F = d // 100000
+            i += 1
+            if F == 0:
+                out.append(('E', d))
+            elif F == 2:
+                out.append(('O', d))
+            elif F == 3:
+                sub, i = parse(i, level + 1)
+                out.append(('S', d, sub))
+            else:
+                f = None
+                if i < len(items) and items[i][1] and items[i][0] == level:
+                    f = items[i][2]
+                    i += 1
+                sub, i = parse(i, level + 1)
+                out.append(('R', d, f, sub))
+        return out, i
+    nodes, i = parse(0, 0)
+    if i != len(items):
+        raise ValueError('trailing lines')
+    return nodes
+
+
+def run_cli_part(lists):
+    """`pybufrkit lookup <ids>`: the printed indentation is the ownership tree; element lines end with unit, scale,
+    reference, width of the table row.  `pybufrkit info -t <file>`: the template of a message."""
+    from mc.engine.cli import run_cli
+    p = Partial()
+    B, D = S.tables_for(33)
+    scratch = os.environ.get('VERIF_SCRATCH') or '/dev/shm'
+    fn = os.path.join(scratch, 'c14_%d.bufr' % os.getpid())
+    try:
+        for ids, shape in lists:
+            case = {'ids': ids}
+            out, err, exc, code = run_cli(['lookup', '--master-table-version', '33', ','.join('%06d' % d for d in ids)])
+            p.n['exec'] += 1
+            p.outcome(('lookup', len(ids), T.nesting(shape)))
+            if exc is not None or code not in (None, 0):
+                p.violation('cli-lookup-fails', case, 'ended with %r / exit %r: %s' % (exc, code, err[-200:]))
+                continue
+            lines = out.split('\n')[:-1]
+            try:
+                got = _parse_printed_tree(lines)
+            except Exception as e:
+                p.violation('cli-lookup-unparsable', case, '%r: %r' % (e, lines[:6]))
+                continue
+            if got != shape:
+                p.violation('cli-lookup-tree', case, 'printed ownership %r, FM-94 gives %r' % (got, shape))
+                continue
+            for l in lines:
+                if l[:1] == '0' and not l.startswith('....'):
+                    d = int(l[:6])
+                    name, unit, scale, ref, width = B[d]
+                    if not l.endswith(', %s, %s, %s, %s' % (unit, scale, ref, width)) or not l.startswith('%06d %s' % (d, name)):
+                        p.violation('cli-lookup-attributes', case, 'line %r, table row %r' % (l, B[d]))
+                        break
+            # the same list as the template of a message
+            b = message.build(message.Spec(descs=ids, nsub=0), b'')[0]
+            with open(fn, 'wb') as f:
+                f.write(b)
+            out, err, exc, code = run_cli(['info', '-t', fn])
+            p.n['exec'] += 1
+            p.outcome(('info-t', len(ids), T.nesting(shape)))
+            lines = out.split('\n')[:-1]
+            k = next((i for i, l in enumerate(lines) if l.startswith('BufrTemplate')), None)
+            if exc is not None or k is None:
+                p.violation('cli-info-template-missing', case, '%r %r' % (exc, lines[-3:]))
+                continue
+            try:
+                got = _parse_printed_tree([l[4:] for l in lines[k + 1:]])
+            except Exception as e:
+                p.violation('cli-info-unparsable', case, '%r: %r' % (e, lines[k:k + 6]))
+                continue
+            if got != shape:
+                p.violation('cli-info-tree', case, 'printed ownership %r, FM-94 gives %r' % (got, shape))
+    finally:
+        if os.path.exists(fn):
+            os.remove(fn)
+    return p
+
+
 def private_root(base):
     """a second tables directory that holds fewer versions than the bundled one (links to the bundled version directories)"""
     root = os.path.join(base, 'c14_private_tables_%d' % os.getpid())
@@ -399,6 +499,10 @@ def run_select_roots(args):
 
 
 def replay(part, case):
+    if part == 'cli':
+        B, D = S.tables_for(33)
+        p = run_cli_part([(case['ids'], T.tree(case['ids'], D))])
+        return [{'sig': x['sig'], 'detail': x['detail']} for x in p.viol]
     if part == 'select-roots':
         p = run_select_roots(([tuple(case['history'])],))
         return [{'sig': x['sig'], 'detail': x['detail']} for x in p.viol]
@@ -464,6 +568,10 @@ def main(tier, seed):
     p.n['nodes'], p.n['edges'] = p.n['exec'] + 1, p.n['exec']
     p.sample({'combo': combos[100]})
     rep.add_part('select', p, bounds={'combinations': len(combos)})
+    cl = list(wellformed_lists(4 if tier == 'quick' else 5))
+    p = merge_all(run_shards(run_cli_part, split(cl, 32)))
+    p.n['nodes'], p.n['edges'] = p.n['exec'] + 1, p.n['exec']
+    rep.add_part('cli', p, bounds={'lists': len(cl), 'max_length': 4 if tier == 'quick' else 5, 'commands': ['lookup', 'info -t']})
     n = len(ROOT_REQUESTS)
     maxlen = 2 if tier == 'quick' else 3
     hists = [h for L in range(1, maxlen + 1) for h in itertools.product(range(n), repeat=L)]
